@@ -46,7 +46,7 @@ CHECKS = {
    technique="property-based testing: differential oracle, independent renderer -> reader under test, with metamorphic lexical variation"),
  "C05": dict(level="exploration", design="4/C05",
    text="Domain = the image of the reader: every library obtained by reading rendered G-lef texts (all constructs, versions 5.3-5.8) plus each version-gated statement under each version (exhaustive 6x3) and hand-written texts; to_string()/save() must succeed and the written text must read back to an equal library.",
-   note="Layout of the written text is free. The lefrw binary is a thin wrapper over open/save and is exercised through those.",
+   note="Layout of the written text is free. The lefrw binary is built from /repo's working tree into the harness target directory and run on 400 (quick) generated files; its output must read back equal.",
    technique="property-based testing: write/read round-trip oracle over the reader's image"),
 
  "C06": dict(level="exploration", design="4/C06",
@@ -115,7 +115,7 @@ def main():
     na = [{"property_id": p, "reason": NOT_YET.get(p, "check not built yet in this revision of /verif (work in progress; planned, see DESIGN.md section 4)")} for p in ALL if p not in CHECKS]
     m = {
       "version": 1,
-      "setup_cmd": "cd /verif/harness && CARGO_NET_OFFLINE=true cargo build --release --offline",
+      "setup_cmd": "cd /verif/harness && CARGO_NET_OFFLINE=true cargo build --release --offline && CARGO_NET_OFFLINE=true cargo build --release --offline --manifest-path /repo/Cargo.toml -p lef21 --bin lefrw --target-dir /verif/harness/target/repo-bins",
       "hooks": {
         "guard": "layout21_verif",
         "enable": "none needed: every entry point the properties name is public; the harness links /repo's crates by path and rebuilds them from the working tree on every check",
